@@ -64,14 +64,36 @@ def _flows_to_divisor(prog, func, loop):
 def find_taylor_loops(prog, func):
     """Innermost For loops whose counter flows to a divisor."""
     out = []
+    pm = parents_map(func.node)
+
+    def cand(n):
+        if _flows_to_divisor(prog, func, n):
+            return True
+        # fallback: innermost range-loop nested in another loop that carries
+        # two variables one of which is updated as X = X + Y
+        nested = any(isinstance(p, (ast.For, ast.While)) for p in _ancestors(pm, n))
+        if not nested or any(isinstance(m, ast.For) for m in ast.walk(n) if m is not n):
+            return False
+        car = _carried(n)
+        acc = [s for s in n.body if isinstance(s, ast.Assign) and isinstance(s.targets[0], ast.Name)
+               and isinstance(s.value, ast.BinOp) and isinstance(s.value.op, ast.Add)
+               and isinstance(s.value.left, ast.Name) and s.value.left.id == s.targets[0].id]
+        return len(car) == 2 and bool(acc)
     for n in walk_no_nested(func.node):
         if isinstance(n, ast.For) and isinstance(n.iter, ast.Call) and call_name(n.iter) == "range":
-            if _flows_to_divisor(prog, func, n):
+            if cand(n):
                 inner = [m for m in ast.walk(n) if m is not n and isinstance(m, ast.For)
                          and _flows_to_divisor(prog, func, m)]
                 if not inner:
                     out.append(n)
     return out
+
+
+def _ancestors(pm, n):
+    p = pm.get(n)
+    while p is not None:
+        yield p
+        p = pm.get(p)
 
 
 def _carried(loop):
